@@ -213,7 +213,16 @@ def make_spy(base, ctl):
         async def close(self, file):
             # the handle counts as open until close() has returned (or failed: then it is given up as well)
             try:
-                await ctl.before(self, "close", None)
+                try:
+                    await ctl.before(self, "close", None)
+                except BaseException:
+                    # an injected failure of close(): a close() that reports an error has let go of the file all the same
+                    if not isinstance(file, io.BytesIO):
+                        try:
+                            file.close()
+                        except Exception:
+                            pass
+                    raise
                 return await base.close(self, file)
             finally:
                 for i, h in enumerate(ctl.open_handles):
